@@ -70,6 +70,61 @@ func (b *Body) index(name string) int {
 	return -1
 }
 
+// locate finds a data node by name, looking through the cases of choices (which are
+// transparent in the data tree).
+func locate(kids []*gen.SNode, data []*gen.DNode, name string) (*gen.SNode, *gen.DNode) {
+	for i, k := range kids {
+		if k.Kind == "choice" {
+			for ci, c := range k.Cases {
+				if s, d := locate(c.Kids, data[i].Cases[ci], name); s != nil {
+					return s, d
+				}
+			}
+			continue
+		}
+		if k.Name == name {
+			return k, data[i]
+		}
+	}
+	return nil, nil
+}
+
+func locateChoice(kids []*gen.SNode, data []*gen.DNode, name string) (*gen.SNode, *gen.DNode) {
+	for i, k := range kids {
+		if k.Kind != "choice" {
+			continue
+		}
+		if k.Name == name {
+			return k, data[i]
+		}
+		for ci, c := range k.Cases {
+			if s, d := locateChoice(c.Kids, data[i].Cases[ci], name); s != nil {
+				return s, d
+			}
+		}
+	}
+	return nil, nil
+}
+
+func bodyHasData(kids []*gen.SNode, data []*gen.DNode) bool {
+	for i, k := range kids {
+		d := data[i]
+		switch k.Kind {
+		case "choice":
+			for ci, c := range k.Cases {
+				if bodyHasData(c.Kids, d.Cases[ci]) {
+					return true
+				}
+			}
+		default:
+			if d.Leaf != nil || d.Present || len(d.Rows) > 0 {
+				return true
+			}
+		}
+	}
+	return false
+}
+
 func flags(parts ...string) string {
 	var out []string
 	for _, p := range parts {
@@ -91,11 +146,10 @@ func (b *Body) Child(r node.ChildRequest) (node.Node, error) {
 	if err := b.Rec.hit("child", b.Id, flags(name, fl)); err != nil {
 		return nil, err
 	}
-	i := b.index(name)
-	if i < 0 {
+	s, d := locate(b.Kids, b.Data, name)
+	if s == nil {
 		return nil, fmt.Errorf("refstore: no child %s in %s", name, b.Id)
 	}
-	s, d := b.Kids[i], b.Data[i]
 	if s.Kind == "list" {
 		switch {
 		case r.New:
@@ -142,11 +196,10 @@ func (b *Body) Field(r node.FieldRequest, hnd *node.ValueHandle) error {
 	if err := b.Rec.hit("field", b.Id, flags(name, op)); err != nil {
 		return err
 	}
-	i := b.index(name)
-	if i < 0 {
+	_, d := locate(b.Kids, b.Data, name)
+	if d == nil {
 		return fmt.Errorf("refstore: no leaf %s in %s", name, b.Id)
 	}
-	d := b.Data[i]
 	if r.Write {
 		if r.Clear || hnd.Val == nil {
 			d.Leaf = nil
@@ -174,36 +227,21 @@ func (b *Body) Choose(sel *node.Selection, choice *meta.Choice) (*meta.ChoiceCas
 	if err := b.Rec.hit("choose", b.Id, choice.Ident()); err != nil {
 		return nil, err
 	}
-	// first case (sorted case idents) that holds any data
-	for _, cid := range choice.CaseIdents() {
-		c := choice.Cases()[cid]
-		if b.caseHasData(c) {
-			return c, nil
+	// first case, in sorted case-ident order, that holds any data
+	cs, cd := locateChoice(b.Kids, b.Data, choice.Ident())
+	if cs == nil {
+		return nil, fmt.Errorf("refstore: no choice %s in %s", choice.Ident(), b.Id)
+	}
+	for ci, c := range cs.Cases {
+		if bodyHasData(c.Kids, cd.Cases[ci]) {
+			mc := choice.Cases()[c.Name]
+			if mc == nil {
+				return nil, fmt.Errorf("refstore: case %s not in schema", c.Name)
+			}
+			return mc, nil
 		}
 	}
 	return nil, nil
-}
-
-func (b *Body) caseHasData(c *meta.ChoiceCase) bool {
-	for _, d := range c.DataDefinitions() {
-		if ch, isChoice := d.(*meta.Choice); isChoice {
-			for _, cid := range ch.CaseIdents() {
-				if b.caseHasData(ch.Cases()[cid]) {
-					return true
-				}
-			}
-			continue
-		}
-		i := b.index(d.Ident())
-		if i < 0 {
-			continue
-		}
-		x := b.Data[i]
-		if x.Leaf != nil || x.Present || len(x.Rows) > 0 {
-			return true
-		}
-	}
-	return false
 }
 
 func editFlags(r node.NodeRequest) string {
